@@ -466,7 +466,28 @@ def prop_doc(case):
         raise Violation("doc-valid-refused", "valid document (%s) refused at vlevel %d: %s\n%s" % (case["kind"], vlevel, info, text), case["kind"])
     if want == "refuse" and got == "accept":
         raise Violation("doc-invalid-accepted", "document with mutation %s accepted at vlevel %d:\n%s" % (case["kind"], vlevel, text), case["kind"])
+    # the lines one by one (gfapy.Line + validate()): every line of a valid document is accepted alone, and a rule
+    # that concerns a single line (field count, tag names and types, LN, overlap count, begin <= end) refuses the line alone
+    if case.get("dialect", "standard") == "standard":
+        verdicts = []
+        for l in lines:
+            try:
+                x = gfapy.Line(l, version=case["version"], vlevel=vlevel)
+                x.validate()
+                verdicts.append("accept" if "# INVALID" not in str(x) else "refuse")
+            except GfapyError:
+                verdicts.append("refuse")
+            except Exception as e:
+                raise Violation("doc-foreign", "line %r alone: %s: %s" % (l, type(e).__name__, str(e)[:200]), "%s/line/%s" % (case["kind"], type(e).__name__))
+        if want == "accept" and "refuse" in verdicts:
+            raise Violation("doc-valid-refused", "line %r of a valid document is refused alone at vlevel %d" % (lines[verdicts.index("refuse")], vlevel), "line/" + case["kind"])
+        if want == "refuse" and case["kind"] in SINGLE_LINE_RULES and "refuse" not in verdicts:
+            raise Violation("doc-invalid-accepted", "mutation %s concerns one line, but every line is accepted alone (gfapy.Line + validate()) at vlevel %d:\n%s" % (
+                case["kind"], vlevel, text), "line/" + case["kind"])
     return {"nt": case["kind"] not in ("none",), "kind": case["kind"], "version": case["version"]}
+
+
+SINGLE_LINE_RULES = {"bad_tagname", "dup_tag", "predef_type", "ln_mismatch", "path_count", "beg_gt_end"}
 
 
 RGFA_BASE = ["S\ts1\tACGT\tSN:Z:chr1\tSO:i:0\tSR:i:0", "S\ts2\tAC\tSN:Z:chr1\tSO:i:4\tSR:i:0",
